@@ -72,9 +72,14 @@ struct scen nondet_scen(void);
 /* vacuity twin: ordinary obligations are switched off, every WITNESS point must be reachable */
 #define CHECK(c, msg) do { (void)(c); } while (0)
 #define WITNESS(c, name) __CPROVER_assert(!(c), "witness:" name)
-#else
+#elif defined(NO_WITNESS)
 #define CHECK(c, msg) __CPROVER_assert((c), msg)
 #define WITNESS(c, name) do { } while (0)
+#else
+#define CHECK(c, msg) __CPROVER_assert((c), msg)
+/* vacuity guard inside the main run: every witness goal is an assertion that is EXPECTED TO FAIL (the goal is
+ * reachable under all assumptions); the runner treats "witness:" results separately from real obligations */
+#define WITNESS(c, name) __CPROVER_assert(!(c), "witness:" name)
 #endif
 
 #ifdef HINTS_FILE
@@ -92,9 +97,7 @@ int main(void)
         S = nondet_scen();
         world_reset();
         scen_run();
-#ifdef WITNESS_MODE
         WITNESS(1, "end-of-scenario");
-#endif
         return 0;
 }
 
